@@ -132,6 +132,29 @@ class Oracle(object):
     if not isinstance(T, np.ndarray) or T.shape != (5, k):
       raise Violation("postcondition", "cls=%s,transform_shape" % name,
                       "transform of (5,%d) gave %s, expected (5,%d)" % (d, getattr(T, "shape", None), k))
+    # ... whatever container the (n, n_features) points come in: transform accepts array-likes
+    # and (explicitly, accept_sparse=True) scipy.sparse matrices
+    which = ["list", "fortran", "csr", "csc"][int(rs.randint(0, 4))]
+    if which == "list":
+      P2 = P.tolist()
+    elif which == "fortran":
+      P2 = np.asfortranarray(P)
+    else:
+      import scipy.sparse as sp
+      Pz = np.where(rs.rand(*P.shape) < 0.5, 0.0, P)
+      P, P2 = Pz, (sp.csr_matrix(Pz) if which == "csr" else sp.csc_matrix(Pz))
+      T = est.transform(P)
+    with world.observed():
+      T2 = est.transform(P2)
+    if not isinstance(T2, np.ndarray) or T2.shape != (5, k) or T2.dtype.kind != "f":
+      raise Violation("postcondition", "cls=%s,transform_shape,input=%s" % (name, which),
+                      "transform of a (5,%d) %s input gave %s %s, expected a float array of shape (5,%d)"
+                      % (d, which, type(T2).__name__, getattr(T2, "shape", None), k))
+    if T.size and np.isfinite(T).all() and np.abs(T2 - T).max() > 1e-9 * max(1e-300, np.abs(T).max()):
+      raise Violation("postcondition", "cls=%s,transform_value,input=%s" % (name, which),
+                      "transform of the same points given as %s differs from the ndarray result by %g"
+                      % (which, np.abs(T2 - T).max()))
+    m.cov["transform_input_" + which] += 1
     m.cov["postconditions_checked"] += 1
     m.cov["k_lt_d"] += int(k < d)
     if h.n_fits > 1:
